@@ -13,3 +13,11 @@ package objectsetphases
 
 //@ func package-operator.run/internal/controllers/objectsetphases.(*objectSetPhaseReconciler).Reconcile
 //@   requires true
+
+//@ props C15
+// a delegated phase is reconciled (objects written) only after its cached finalizer was persisted in this pass, so
+// that deleting the phase object always runs the phase's teardown
+//@ func package-operator.run/internal/controllers/objectsetphases.(*GenericObjectSetPhaseController).Reconcile
+//@   at reconciler.Reconcile#1 assert [C15] finEnsured(clientObj(objectSetPhase))
+//@   sink updateStatus:SubResourceWriter.Update requires [C15] true
+//@   loop 1 invariant [C15] finEnsured(clientObj(objectSetPhase))
